@@ -3,7 +3,10 @@ package main
 import (
 	"encoding/json"
 	"fmt"
+	"strings"
 	"unicode/utf8"
+
+	"github.com/tyler-sommer/stick"
 
 	"github.com/tyler-sommer/stick/twig"
 	"github.com/tyler-sommer/stick/twig/escape"
@@ -60,6 +63,15 @@ func init() {
 			var e twig.Escaper
 			e, ok = twig.NewAutoEscapeExtension().Escapers[c.Fn]
 			f = e
+		}
+		if strings.HasPrefix(c.Via, "filter:") {
+			// the escape filter of a Twig environment applied to a value that is marked safe for ANOTHER content type:
+			// it is not safe for this one and must come out escaped
+			other := strings.TrimPrefix(c.Via, "filter:")
+			flt := twig.New(nil).Filters["escape"]
+			fn := c.Fn
+			f = func(s string) string { return stick.CoerceString(flt(nil, stick.NewSafeValue(s, other), fn)) }
+			ok = flt != nil
 		}
 		if !ok {
 			return nil, fmt.Errorf("unknown escaper %q", c.Fn)
